@@ -17,23 +17,24 @@ import (
 type VK int
 
 const (
-	kScalar VK = iota // Int / Bool / Real term in S
-	kSlice            // Arr (ref of backing array, Int), Len (Int); offset is always 0
-	kStruct           // struct value: Fs
-	kAddr             // address descriptor (result of FieldAddr/IndexAddr/Alloc of non-struct/Global)
-	kTuple            // multi-value: Fs
-	kClosure          // Fn + Fs (bindings)
-	kIter             // map/string iterator
+	kScalar  VK = iota // Int / Bool / Real term in S
+	kSlice             // Arr (ref of backing array, Int), Len (Int); offset is always 0
+	kStruct            // struct value: Fs
+	kAddr              // address descriptor (result of FieldAddr/IndexAddr/Alloc of non-struct/Global)
+	kTuple             // multi-value: Fs
+	kClosure           // Fn + Fs (bindings)
+	kIter              // map/string iterator
 	kNone
+	kRat // float64 value known to be the exact rational Num/Den (Den > 0); A6: floats as exact rationals
 )
 
 type AK int
 
 const (
-	aField AK = iota // Base = ref of root struct, Root + Path select the heap array
-	aElem            // Base = ref of backing array, Idx = index term, Root = element type, Path = path inside an element struct value
-	aCell            // Base = ref of a cell, Root = cell type, Path inside
-	aGlobal          // package-level variable
+	aField  AK = iota // Base = ref of root struct, Root + Path select the heap array
+	aElem             // Base = ref of backing array, Idx = index term, Root = element type, Path = path inside an element struct value
+	aCell             // Base = ref of a cell, Root = cell type, Path inside
+	aGlobal           // package-level variable
 )
 
 type Addr struct {
@@ -62,6 +63,11 @@ type Val struct {
 	A   *Addr
 	Fn  *ssa.Function
 	It  *Iter
+	Num string
+	Inf  string // float64 value is +Inf (x/0 with x > 0)
+	NInf string // float64 value is -Inf (x/0 with x < 0)
+	Sp  string // "special" flag of a float64 value: NaN / Inf (division by a non-positive value); "" = false
+	Den string
 	// provenance: value was loaded from this package-level variable (for table lookups)
 	Glob *ssa.Global
 }
@@ -89,6 +95,9 @@ func sortOfBasic(b *types.Basic) string {
 func flatten(t types.Type) []Comp {
 	switch u := t.Underlying().(type) {
 	case *types.Basic:
+		if u.Info()&types.IsFloat != 0 {
+			return []Comp{{"#num", "Int", false}, {"#den", "Int", false}, {"#sp", "Bool", false}, {"#inf", "Bool", false}, {"#ninf", "Bool", false}}
+		}
 		return []Comp{{"", sortOfBasic(u), false}}
 	case *types.Slice:
 		return []Comp{{"#arr", "Int", true}, {"#len", "Int", false}}
@@ -124,6 +133,20 @@ func comps(v Val) []string {
 	switch v.K {
 	case kScalar:
 		return []string{v.S}
+	case kRat:
+		sp := v.Sp
+		if sp == "" {
+			sp = "false"
+		}
+		inf := v.Inf
+		if inf == "" {
+			inf = "false"
+		}
+		ninf := v.NInf
+		if ninf == "" {
+			ninf = "false"
+		}
+		return []string{v.Num, v.Den, sp, inf, ninf}
 	case kSlice:
 		return []string{v.Arr, v.Len}
 	case kStruct, kTuple:
@@ -158,6 +181,11 @@ func fromComps(t types.Type, cs []string) (Val, []string) {
 			v.Fs = append(v.Fs, f)
 		}
 		return v, cs
+	case *types.Basic:
+		if u.Info()&types.IsFloat != 0 {
+			return Val{T: t, K: kRat, Num: cs[0], Den: cs[1], Sp: cs[2], Inf: cs[3], NInf: cs[4]}, cs[5:]
+		}
+		return scalar(t, cs[0]), cs[1:]
 	default:
 		return scalar(t, cs[0]), cs[1:]
 	}
@@ -178,6 +206,9 @@ func zeroVal(t types.Type) Val {
 	ts := make([]string, len(cs))
 	for i, c := range cs {
 		ts[i] = zeroTerm(c.Sort)
+		if strings.HasSuffix(c.Suffix, "#den") {
+			ts[i] = "1"
+		}
 	}
 	v, _ := fromComps(t, ts)
 	return v
@@ -241,10 +272,11 @@ func pathName(root types.Type, path []int) string {
 // ---------------------------------------------------------------------------
 
 type Heap struct {
-	m     map[string]string // heap array name -> current term
-	alloc string
-	formal *formalHeap // non-nil: a heap made of formal array parameters (spec function bodies) or of separately declared symbols (lemma proofs)
-	dirty map[string]int // written since the enclosing loop cut: minimum allocation serial of the written base refs (0 = pre-existing memory)
+	m      map[string]string // heap array name -> current term
+	alloc  string
+	lock   string         // lock discipline: "" not held | "r" | "w" (path-sensitive, merged conservatively)
+	formal *formalHeap    // non-nil: a heap made of formal array parameters (spec function bodies) or of separately declared symbols (lemma proofs)
+	dirty  map[string]int // written since the enclosing loop cut: minimum allocation serial of the written base refs (0 = pre-existing memory)
 }
 
 type formalHeap struct {
@@ -255,7 +287,7 @@ type formalHeap struct {
 }
 
 func (h *Heap) clone() *Heap {
-	n := &Heap{m: make(map[string]string, len(h.m)), alloc: h.alloc, dirty: make(map[string]int, len(h.dirty)), formal: h.formal}
+	n := &Heap{m: make(map[string]string, len(h.m)), alloc: h.alloc, dirty: make(map[string]int, len(h.dirty)), formal: h.formal, lock: h.lock}
 	for k, v := range h.m {
 		n.m[k] = v
 	}
